@@ -248,3 +248,51 @@ Proof.
   exists pre. eexists. exists (nth t fns vzero). split; [exact E|]. split; [exact Hp|].
   apply mesh_normals_ok_spec; assumption.
 Qed.
+
+(* ---------- the oracle is tight: it pins the significand down to two adjacent candidates ---------- *)
+Lemma fn_word_ok_tight_half sk S w1 w2 sg m1 m2 e : 0 < S ->
+  f32_decode w1 = Some (sg, m1, e) -> f32_decode w2 = Some (sg, m2, e) -> m1 <> 0 -> m2 <> 0 ->
+  fn_word_ok sk S w1 = true -> fn_word_ok sk S w2 = true -> m1 <= m2 + 1.
+Proof.
+  intros HS Hd1 Hd2 Hn1 Hn2 H1 H2.
+  destruct (f32_decode_range _ _ _ _ Hd1) as [Hm1 He]. destruct (f32_decode_range _ _ _ _ Hd2) as [Hm2 _].
+  unfold fn_word_ok in H1, H2. rewrite Hd1 in H1. rewrite Hd2 in H2.
+  replace (m1 =? 0) with false in H1 by (symmetry; apply Z.eqb_neq; assumption).
+  replace (m2 =? 0) with false in H2 by (symmetry; apply Z.eqb_neq; assumption).
+  apply andb_prop in H1 as [H1 _]. apply andb_prop in H1 as [_ H1]. apply Z.leb_le in H1.
+  apply andb_prop in H2 as [_ H2]. apply Z.leb_le in H2.
+  set (q := 2 ^ (e + fgrid - fslack)) in *.
+  assert (Hq : 0 < q) by (apply Z.pow_pos_nonneg; unfold fgrid, fslack; lia).
+  assert (E0 : 2 ^ (e + fgrid) = 2097152 * q).
+  { unfold q, fslack. replace (e + fgrid) with (21 + (e + fgrid - 21)) at 1 by ring.
+    rewrite Z.pow_add_r by (unfold fgrid; lia). reflexivity. }
+  assert (E1 : 2 ^ (e + fgrid - 1) = 1048576 * q).
+  { unfold q, fslack. replace (e + fgrid - 1) with (20 + (e + fgrid - 21)) by ring.
+    rewrite Z.pow_add_r by (unfold fgrid; lia). reflexivity. }
+  assert (Hgd : 0 <= gap_down m1 e <= 1048576 * q).
+  { unfold gap_down. destruct ((m1 =? 8388608) && (-149 <? e))%bool eqn:Eb; [|rewrite E1; lia].
+    apply andb_prop in Eb as [_ Eb]. apply Z.ltb_lt in Eb.
+    replace (e + fgrid - 2) with (19 + (e + fgrid - 21)) by ring. rewrite Z.pow_add_r by (unfold fgrid; lia).
+    fold fslack. fold q. change (2 ^ 19) with 524288. lia. }
+  unfold slack, gap_up in *. fold q in H1, H2. rewrite E0 in H1, H2. rewrite E1 in H2.
+  set (X := sk * sk * 2 ^ (2 * fgrid)) in *.
+  set (lo := m1 * (2097152 * q) - gap_down m1 e - q) in *. set (hi := m2 * (2097152 * q) + 1048576 * q + q) in *.
+  assert (Hmq1 : q <= m1 * q) by (clear - Hm1 Hn1 Hq; nia).
+  assert (Hmq2 : q <= m2 * q) by (clear - Hm2 Hn2 Hq; nia).
+  assert (Hlo : 0 <= lo) by (unfold lo; clear - Hmq1 Hq Hgd; lia).
+  assert (Hhi : 0 <= hi) by (unfold hi; clear - Hmq2 Hq; lia).
+  assert (Hsq : lo * lo <= hi * hi).
+  { apply Z.mul_le_mono_pos_r with S; [assumption|]. replace (lo * lo) with (lo ^ 2) by ring. replace (hi * hi) with (hi ^ 2) by ring. lia. }
+  assert (Hle : lo <= hi) by (apply Z.square_le_simpl_nonneg; assumption).
+  destruct (Z_le_gt_dec m1 (m2 + 1)) as [|Hgt]; [assumption|exfalso].
+  assert (m2 * q + 2 * q <= m1 * q) by (clear - Hgt Hq; nia).
+  unfold lo, hi in Hle. clear - Hle H Hgd Hq. lia.
+Qed.
+
+Theorem fn_word_ok_tight sk S w1 w2 sg m1 m2 e : 0 < S ->
+  f32_decode w1 = Some (sg, m1, e) -> f32_decode w2 = Some (sg, m2, e) -> m1 <> 0 -> m2 <> 0 ->
+  fn_word_ok sk S w1 = true -> fn_word_ok sk S w2 = true -> Z.abs (m1 - m2) <= 1.
+Proof.
+  intros. pose proof (fn_word_ok_tight_half sk S w1 w2 sg m1 m2 e) as A.
+  pose proof (fn_word_ok_tight_half sk S w2 w1 sg m2 m1 e) as B. lia.
+Qed.
